@@ -28,7 +28,7 @@ mut("c01_p2_min_first_two", ["C01"], "tad.py",
     "Player 2 reach step looks at the first two actions only")
 # ---------------------------------------------------------------------------------------------------- C02
 mut("c02_rescale_by_removed", ["C02", "C03"], "tad.py",
-    "            (_next_state[PROBABILITY] / (1 - removed_probability), _next_state[NEXT_STATE_IDX])",
+    "            (_next_state[PROBABILITY] / surviving_probability, _next_state[NEXT_STATE_IDX])",
     "            (_next_state[PROBABILITY] / (1 - dead_states[0][PROBABILITY]), _next_state[NEXT_STATE_IDX])",
     "rescales by the first removed branch only (wrong when more than one branch is removed)")
 mut("c02_p2_skips_last", ["C02", "C05", "C14"], "tad.py",
@@ -77,8 +77,8 @@ mut("c09_first_transition_only", ["C09"], "tad.py",
     "        for next_state in self.next_states:\n            if not isinstance(next_state, tuple):",
     "        for next_state in self.next_states[:1]:\n            if not isinstance(next_state, tuple):", "only the first transition of a state is validated")
 # ---------------------------------------------------------------------------------------------------- C10
-mut("c10_slice_assign", ["C10"], "tad.py", "        self.next_states = [\n            (_next_state[PROBABILITY] / (1 - removed_probability)",
-    "        self.next_states[:] = [\n            (_next_state[PROBABILITY] / (1 - removed_probability)", "in-place pruning through the aliased list")
+mut("c10_slice_assign", ["C10"], "tad.py", "        self.next_states = [\n            (_next_state[PROBABILITY] / surviving_probability",
+    "        self.next_states[:] = [\n            (_next_state[PROBABILITY] / surviving_probability", "in-place pruning through the aliased list")
 mut("c10_cache_state_list", ["C10"], "tad.py", "        state_list = self.init_states()\n        solver = Solver(",
     "        if not hasattr(self, \"_state_list\"):\n            self._state_list = self.init_states()\n        state_list = self._state_list\n        solver = Solver(",
     "state objects cached on the game object between solves")
@@ -128,7 +128,8 @@ mut("c14_p2_first_allowed", ["C14"], "tad.py",
 
 REVERTS = [("edf2190", "revert_F3_reverse_dfs", ["C07", "C01"]), ("f849c62", "revert_F1_prune_paths", ["C02", "C03", "C06", "C10", "C13"]),
            ("ce29c7c", "revert_F6_count_transitions", ["C09", "C12"]), ("b382449", "revert_F4_width1", ["C08"]),
-           ("a068c84", "revert_F5_prob_to_str", ["C17"]), ("b802ce9", "revert_F7_reward_clamp", ["C15"])]
+           ("a068c84", "revert_F5_prob_to_str", ["C17"]), ("b802ce9", "revert_F7_reward_clamp", ["C15"]),
+           ("bc2917a", "revert_F8_surviving_mass", ["C02", "C06"]), ("734775f", "revert_F9_reward_overflow", ["C15"])]
 
 
 def head(file):
@@ -153,7 +154,7 @@ def main():
         d = subprocess.run(["git", "-C", "/repo", "diff", commit, commit + "^"], capture_output=True, text=True, check=True).stdout
         with open(os.path.join(OUT, name + ".diff"), "w") as f:
             f.write(d)
-        table[name] = {"expected": props, "note": "the pre-fix code of fix commit " + commit}
+        table[name] = {"expected": props, "note": "the pre-fix code of fix commit " + commit, "base": commit}
     with open(os.path.join(HERE, "mutants.json"), "w") as f:
         json.dump(table, f, indent=1)
     print("%d mutants written" % len(table))
